@@ -543,12 +543,22 @@ def check(run):
         if not cmut:
             continue
         for f in prog.all_functions():
+            # local aliases of a class-level container: `layout = cls._LAYOUT` ... `layout['burned'] = ...`
+            calias = {}
+            for n in ast.walk(f.node):
+                if isinstance(n, ast.Assign) and len(n.targets) == 1 and isinstance(n.targets[0], ast.Name) and isinstance(n.value, ast.Attribute) \
+                        and n.value.attr in cmut and isinstance(n.value.value, ast.Name):
+                    calias[n.targets[0].id] = n.value
             for n in ast.walk(f.node):
                 tgt = None
                 if isinstance(n, ast.Call) and isinstance(n.func, ast.Attribute) and n.func.attr in MUTATORS and isinstance(n.func.value, ast.Attribute):
                     tgt = n.func.value
                 elif isinstance(n, ast.Subscript) and isinstance(n.ctx, (ast.Store, ast.Del)) and isinstance(n.value, ast.Attribute):
                     tgt = n.value
+                elif isinstance(n, ast.Call) and isinstance(n.func, ast.Attribute) and n.func.attr in MUTATORS and isinstance(n.func.value, ast.Name) and n.func.value.id in calias:
+                    tgt = calias[n.func.value.id]
+                elif isinstance(n, ast.Subscript) and isinstance(n.ctx, (ast.Store, ast.Del)) and isinstance(n.value, ast.Name) and n.value.id in calias:
+                    tgt = calias[n.value.id]
                 if tgt is not None and tgt.attr in cmut and isinstance(tgt.value, ast.Name) and \
                         (tgt.value.id in (c.name, 'cls') or (tgt.value.id == 'self' and f.cls is not None and prog.is_subclass(f.cls, c.name) and
                                                              not assigns_self_attr(prog, f.cls, tgt.attr))):
